@@ -25,8 +25,13 @@ GROUPS = [
 ]
 
 
+ALL = []
+
+
 def checks_for(meta, patch):
-    ids = set(re.findall(r"C\d\d", " ".join([meta.get("property", "")] + meta.get("properties", []))))
+    if ALL:
+        return [f"C{i:02d}" for i in range(1, 21)]
+    ids = set(re.findall(r"C\d\d", " ".join([meta.get("property") or ""] + meta.get("properties", []))))
     for pat, lst in GROUPS:
         if re.search(pat, patch):
             ids.update(lst.split())
@@ -70,6 +75,8 @@ def main():
             jobs = int(args.pop(0))
         elif k == "--tier":
             tier = args.pop(0)
+        elif k == "--all":
+            ALL.append(True)
         elif k == "--only":
             ONLY.extend(args.pop(0).split(","))
     names = args or sorted(n for n in os.listdir(SEEDED) if os.path.isfile(os.path.join(SEEDED, n, "patch.diff")))
@@ -85,6 +92,9 @@ def main():
     json.dump(matrix, open(path, "w"), indent=1, sort_keys=True)
     missed = [n for n in names if not matrix[n]["caught_by"]]
     print(f"{len(names)} seeds, {len(missed)} not caught: {missed}")
+    alarms = {n: matrix[n]["caught_by"] for n in names if matrix[n]["caught_by"] and n.startswith("ref-")}
+    if any(n.startswith("ref-") for n in names):
+        print(f"refactorings raising an alarm (must be empty): {alarms}")
 
 
 main()
